@@ -534,7 +534,7 @@ def gen_descriptors(tier, rng):
                 yield D("inner", [g.arr(s, cplx), g.arr(sb, cplx)], n_modes=n)
     yield D("inner", [g.arr((2, 3)), g.arr((3, 2))], valid=False, n_modes=None)
     yield D("inner", [g.arr((2, 3)), g.arr((2, 2))], valid=False, n_modes=1)
-    # n_modes = 0 is the outer product (einsum backend); the core backend mis-slices shape_t1[:-0]
+    # n_modes = 0 is the outer product
     for s, sb in (((2, 3), (2,)), ((2,), (3, 2)), ((1, 2), (3,)), ((3,), (2,))):
         yield D("inner", [g.arr(s), g.arr(sb)], n_modes=0)
 
@@ -690,19 +690,9 @@ def describe(d, be):
 
 
 # ----------------------------------------------------------------------------- known-finding classifiers
-def clf_tensordot_batch(f):
-    i = f["inputs"]
-    b1 = i["opts"]["batched"][0]
-    return i["fn"] == "tensordot" and i["backend"] == "core" and any(b1[k] > b1[k + 1] for k in range(len(b1) - 1))
-
-
-def clf_inner_zero(f):
-    i = f["inputs"]
-    return i["fn"] == "inner" and i["backend"] == "core" and i["opts"]["n_modes"] == 0
-
-
-CLASSIFIERS = {"tensordot_core_batch_modes1_not_increasing": clf_tensordot_batch,
-               "inner_core_n_modes_zero": clf_inner_zero}
+# none: the two findings of round 1 (core inner n_modes=0; core tensordot with unsorted batched modes) were repaired in /repo
+# (f5f06aa, 8cd4a39); their witnesses are regression cases in corpus/C02 and any recurrence is a VIOLATION.
+CLASSIFIERS = {}
 
 
 def entry_point(d, be):
@@ -711,6 +701,42 @@ def entry_point(d, be):
     if d["fn"] == "sample_khatri_rao":
         return "tensorly.decomposition.sample_khatri_rao"
     return f"tensorly.tenalg.{d['fn']}"
+
+
+# ----------------------------------------------------------------------------- shards (local helper around common.run_case_shards)
+SHARD = 300
+RESOURCE_RCS = (-9, 137, 124, -15, 143)   # SIGKILL (OOM killer), timeout(1) exit codes, SIGTERM
+
+
+def run_shards_robust(cases, shard=SHARD):
+    """common.run_case_shards, plus: a shard whose coqc was killed by the OS (out of memory on the shared machine) or hit
+    the shell timeout is re-run alone, up to two more times; if it still cannot be evaluated for lack of resources it is
+    skipped (a timeout is never a violation).  A shard failing with a Coq error stays broken."""
+    import re
+    failing, n_eval, broken = C.run_case_shards("C02", HEADER, "case", cases, shard=shard)
+    hard, skipped = [], []
+    for b in broken:
+        m = re.search(r"S(\d+)\.v$", b.get("shard", ""))
+        if b.get("rc") not in RESOURCE_RCS or not m:
+            hard.append(b)
+            continue
+        k = int(m.group(1))
+        chunk = cases[k * shard:(k + 1) * shard]
+        done = False
+        for attempt in (1, 2):
+            f2, n2, b2 = C.run_case_shards("C02", HEADER, "case", chunk, shard=shard, timeout=900, tag=f"retry{k}_{attempt}")
+            if not b2:
+                failing |= f2
+                n_eval += n2
+                done = True
+                break
+            if any(x.get("rc") not in RESOURCE_RCS for x in b2):
+                hard.extend(b2)
+                done = True
+                break
+        if not done:
+            skipped.append(k)
+    return failing, n_eval, hard, skipped
 
 
 # ----------------------------------------------------------------------------- run
@@ -794,7 +820,11 @@ def run(chk):
                         "operand_shapes": [list(np.asarray(a).shape) for a in d["arrays"]], "outcome": out[0],
                         "output": (np.asarray(out[1]).tolist() if out[0] == "ok" and not isinstance(out[1], tuple) and np.asarray(out[1]).size <= 12 and not np.iscomplexobj(out[1]) else str(out[1])[:120])})
     C.reset_backends()
-    failing, n_eval, broken = C.run_case_shards("C02", HEADER, "case", cases, shard=300)
+    failing, n_eval, broken, skipped_shards = run_shards_robust(cases, shard=SHARD)
+    if skipped_shards:
+        chk.notes.append(f"{len(skipped_shards)} correspondence shard(s) of {SHARD} cases were killed by the OS / timed out three times "
+                         f"(machine out of memory or overloaded) and are counted as skipped, not as disagreements: {skipped_shards}")
+    chk.cov["shards_skipped_for_resources"] = len(skipped_shards)
     chk.checker_cmds.append("coqc (vm_compute) on generated build/cases/C02/*.v: Corr.C02.failing")
     chk.cov["traces_validated_against_impl"] = n_eval
     chk.cov["exhaustive"] = False
